@@ -56,7 +56,9 @@ type Runner struct {
 }
 
 func NewRunner(sc Scenario, noListeners bool) *Runner {
-	return &Runner{Sc: sc, W: BuildWorld(sc.Pool, sc.T0, noListeners), MW: NewModelWorld(sc.Pool, sc.T0), fire: sc.usesFire(), held: map[int]int{}}
+	mw := NewModelWorld(sc.Pool, sc.T0)
+	mw.NoListeners = noListeners
+	return &Runner{Sc: sc, W: BuildWorld(sc.Pool, sc.T0, noListeners), MW: mw, fire: sc.usesFire(), held: map[int]int{}}
 }
 
 func SameErr(got, want error) bool {
@@ -357,7 +359,7 @@ func (r *Runner) compareLogs(model, real []Entry, id int64, res *StepResult) {
 		// only function entries are observable
 		var m2 []Entry
 		for _, e := range model {
-			if e.Pol == PolFunction {
+			if e.Pol == PolFunction || e.Name == "fallback.fn" {
 				m2 = append(m2, e)
 			}
 		}
@@ -397,9 +399,6 @@ func (r *Runner) compareLogs(model, real []Entry, id int64, res *StepResult) {
 				continue
 			}
 			cat := "events/" + kind
-			if k.pol == PolExecutor {
-				cat = "outcome"
-			}
 			if k.pol == PolFunction {
 				cat = "outcome"
 			}
@@ -423,9 +422,6 @@ func (r *Runner) compareLogs(model, real []Entry, id int64, res *StepResult) {
 			// payload that says what happened
 			if m.HasRes && (g.Res != m.Res || !SameErr(g.Err, m.Err)) {
 				cat := "events/" + kind
-				if k.pol == PolExecutor {
-					cat = "outcome"
-				}
 				bad(cat, "%s#%d.%s call %d reports (%d,%s), model (%d,%s)", kind, k.pol, k.name, i, g.Res, describeErr(g.Err), m.Res, describeErr(m.Err))
 			}
 			if m.HasDelay && g.Delay != 0 {
@@ -477,10 +473,11 @@ func (r *Runner) compareLogs(model, real []Entry, id int64, res *StepResult) {
 			lastElapsed, lastElapsedAt = g.Elapsed, g.Mono
 		}
 		if g.HasLast && !g.AttemptStart.IsZero() {
-			if g.AttemptStart.Before(lastAttemptStart) && g.Name != "fallback.fn" {
-				bad("stats/"+kind, "%s#%d.%s: AttemptStartTime went backwards", kind, g.Pol, g.Name)
-			}
-			if g.AttemptStart.After(lastAttemptStart) {
+			// execution copies carry their own attempt start time, so only the function's own sequence is ordered
+			if g.Pol == PolFunction {
+				if g.AttemptStart.Before(lastAttemptStart) {
+					bad("stats/"+kind, "%s#%d.%s: AttemptStartTime went backwards from one attempt to the next", kind, g.Pol, g.Name)
+				}
 				lastAttemptStart = g.AttemptStart
 			}
 			if g.AttemptStart.Before(start) {
